@@ -1,2 +1,102 @@
-(* C17 - Application lifecycle and start modes. Statements only; proofs in App/*Proofs.v. *)
-From Ergo Require Import Common.Base App.Seq App.Cases.
+(* C17 - Application lifecycle and start modes.  Statements only; proofs in App/SeqProofs.v
+   (sequential model, every state of the application record) and App/Proofs.v (small-step model,
+   every schedule that respects the quiescent-restart guard `adm`). *)
+From Ergo Require Import Common.Base App.Seq App.Cases App.Model App.SeqProofs App.Proofs.
+
+(* members in spec order, then the Start callback, exactly once per successful start; the
+   dependencies are handled by the recursion of Seq.start_rec before app_start is reached *)
+Theorem C17_start_order a sp x mode :
+  a_st x = 1 -> fail_index sp x = None ->
+  app_start a sp x mode =
+    (mk_app 2 mode (seq 0 (sp_n sp)) (a_fail x), 0, start_block a (sp_n sp) mode) /\
+  count_ev (is_start_of a) (start_block a (sp_n sp) mode) = 1.
+Proof. exact (seq_start_order a sp x mode). Qed.
+Print Assumptions C17_start_order.
+
+Theorem C17_failed_start_clean a sp x mode k :
+  a_st x = 1 -> fail_index sp x = Some k ->
+  exists x' e, app_start a sp x mode = (x', 7, e) /\ a_st x' = 1 /\ a_live x' = [] /\
+               count_ev (is_start_of a) e = 0.
+Proof. exact (seq_failed_start_clean a sp x mode k). Qed.
+Print Assumptions C17_failed_start_clean.
+
+Theorem C17_mode_rule a x m r :
+  a_st x = 2 -> mem m (a_live x) = true ->
+  (rule_fires (a_mode x) r = true ->
+     app_die a x m r = (mk_app 1 (a_mode x) [] (a_fail x), 0, [ETerm a r 0])) /\
+  (rule_fires (a_mode x) r = false -> remove_nat m (a_live x) = [] ->
+     app_die a x m r = (mk_app 1 (a_mode x) [] (a_fail x), 0, [ETerm a 0 0])) /\
+  (rule_fires (a_mode x) r = false -> remove_nat m (a_live x) <> [] ->
+     app_die a x m r = (mk_app 2 (a_mode x) (remove_nat m (a_live x)) (a_fail x), 0, [])).
+Proof. exact (seq_mode_rule a x m r). Qed.
+Print Assumptions C17_mode_rule.
+
+Theorem C17_mode_rule_when mode r :
+  rule_fires mode r = true <-> mode = 3 \/ (mode = 2 /\ r <> 0 /\ r <> 1).
+Proof. exact (seq_rule_fires_spec mode r). Qed.
+Print Assumptions C17_mode_rule_when.
+
+(* small-step: once stopping, every member still in the group has been told to terminate or the
+   thread that switched the state is about to tell them - all guarded schedules *)
+Theorem C17_mode_rule_all_told n m threads sched :
+  forallb initial_pc threads = true ->
+  let c := run_adm sched (init_cfg n m threads) in
+  st (sh c) = SS -> toldall (sh c) = true \/ count pretell (thr c) >= 1.
+Proof. intros H. exact (stopping_tells_all n m threads sched H). Qed.
+Print Assumptions C17_mode_rule_all_told.
+
+(* Terminate callback at most once per run and never while running / stopping - all guarded
+   schedules of concurrent member deaths, stop calls, starts and unloads *)
+Theorem C17_terminate_once_with_cause n m threads sched :
+  forallb initial_pc threads = true ->
+  let c := run_adm sched (init_cfg n m threads) in
+  runterms (sh c) <= 1 /\ (st (sh c) = SR \/ st (sh c) = SS -> runterms (sh c) = 0).
+Proof. intros H. exact (terminate_once n m threads sched H). Qed.
+Print Assumptions C17_terminate_once_with_cause.
+
+(* ... with the causing reason: sequentially exactly (stop: shutdown / kill; C17_mode_rule: r / normal) *)
+Theorem C17_stop_cause a x force :
+  a_st x = 2 ->
+  app_stop a x force = (mk_app 1 1 [] (a_fail x), 0, [ETerm a (if force then 2 else 1) 0]).
+Proof. exact (seq_stop a x force). Qed.
+Print Assumptions C17_stop_cause.
+
+(* ... and under concurrency refuted (known finding cause-race) *)
+Theorem C17_cause_race_refuted :
+  exists threads sched, forallb initial_pc threads = true /\ cause_race_b threads sched = true.
+Proof. exact cause_race_refuted. Qed.
+Print Assumptions C17_cause_race_refuted.
+
+Theorem C17_back_to_loaded_restartable n m threads sched mode' :
+  forallb initial_pc threads = true ->
+  let c := run_adm sched (init_cfg n m threads) in
+  (st (sh c) = SL \/ st (sh c) = SUnl -> na (sh c) = 0 /\ ng (sh c) = 0) /\
+  (st (sh c) = SL ->
+     step_pc (sh c) (S_cas mode' None) = Some (started (sh c) mode', Done 0) /\
+     st (started (sh c) mode') = SR /\ na (started (sh c) mode') = nmem (sh c) /\
+     starts (started (sh c) mode') = S (starts (sh c)) /\ runterms (started (sh c) mode') = 0).
+Proof.
+  intros H. split; [exact (loaded_clean n m threads sched H) | exact (restartable n m threads sched mode')].
+Qed.
+Print Assumptions C17_back_to_loaded_restartable.
+
+Theorem C17_stop_truthful n m threads sched i p s' :
+  forallb initial_pc threads = true ->
+  let c := run_adm sched (init_cfg n m threads) in
+  nth_error (thr c) i = Some p -> returns_ok p = true ->
+  step_pc (sh c) p = Some (s', Done 0) ->
+  na (sh c) = 0 /\ ng (sh c) = 0.
+Proof. intros H. exact (stop_truthful n m threads sched H i p s'). Qed.
+Print Assumptions C17_stop_truthful.
+
+Theorem C17_stop_truthful_seq a x force x' e :
+  (a_st x <= 1 -> a_live x = []) ->
+  app_stop a x force = (x', 0, e) -> a_st x' <= 1 /\ a_live x' = [].
+Proof. exact (seq_stop_truthful a x force x' e). Qed.
+Print Assumptions C17_stop_truthful_seq.
+
+(* without the guard: a start racing with an in-flight terminate call (known finding restart-race) *)
+Theorem C17_restart_race_refuted :
+  exists threads sched, forallb initial_pc threads = true /\ restart_race_b threads sched = true.
+Proof. exact restart_race_refuted. Qed.
+Print Assumptions C17_restart_race_refuted.
